@@ -119,6 +119,7 @@ def converterOf (name : String) : R (Symbol → String) :=
   | "code" => pure (fun s => s.code.getD "")
   | "wrap" => pure (fun s => "if True:\n\n    " ++ (s.code.getD "").replace "\n" "\n    " ++ "\n  \n# " ++
                              ((s.name.getD "<verbatim>")))
+  | "mark" => pure (fun s => "# begin " ++ (s.name.getD "<verbatim>") ++ "\n" ++ (s.code.getD "") ++ "\n# end")
   | "empty" => pure (fun _ => "")
   | _ => throw s!"unknown converter {name}"
 
